@@ -3,7 +3,9 @@ package main
 
 import (
 	"fmt"
+	"math"
 	"reflect"
+	"time"
 
 	"gopkg.in/typ.v4/slices"
 	"verif/lib/enum"
@@ -30,6 +32,147 @@ func splice(s []int, i, del int, ins []int) []int {
 	out := append([]int{}, s[:i]...)
 	out = append(out, ins...)
 	return append(out, s[i+del:]...)
+}
+
+// typedSplice runs the splice model over ONE element type with a universe of special values (negative
+// zero, NaN, values whose IsZero method lies, nil and non-nil pointers to equal things, ...). same decides
+// whether two elements are the very same value (bit pattern / identity), which == cannot for floats.
+func typedSplice[T any](e *enum.E, tname string, vals []T, same func(a, b T) bool) {
+	eq := func(a, b []T) bool {
+		if len(a) != len(b) {
+			return false
+		}
+		for i := range a {
+			if !same(a[i], b[i]) {
+				return false
+			}
+		}
+		return true
+	}
+	var zero T
+	build := func(n, spare, off int) []T {
+		b := make([]T, n+spare)
+		for i := range b {
+			b[i] = vals[(i+off+1)%len(vals)]
+		}
+		return b[:n]
+	}
+	spl := func(s []T, i, del int, ins []T) []T {
+		out := append([]T{}, s[:i]...)
+		out = append(out, ins...)
+		return append(out, s[i+del:]...)
+	}
+	for n := 0; n <= 5; n++ {
+		for _, sp := range []int{0, 2} {
+			for off := 0; off < len(vals); off++ {
+				rp := map[string]any{"element_type": tname, "len": n, "spare": sp, "offset": off}
+				e.Input(n > 0)
+				fail := func(fn string, format string, a ...any) {
+					e.Fail(fn+"|contents", rp, "[]%s: "+format, append([]any{tname}, a...)...)
+				}
+				orig := build(n, sp, off)
+				for i := 0; i <= n; i++ {
+					for _, v := range vals {
+						s := build(n, sp, off)
+						e.Call()
+						slices.Insert(&s, i, v)
+						if want := spl(orig, i, 0, []T{v}); !eq(s, want) {
+							fail("Insert", "Insert(%v, %d, %v) = %v, want %v", orig, i, v, s, want)
+						}
+					}
+					ins := build(2, 0, off+3)
+					s := build(n, sp, off)
+					e.Call()
+					slices.InsertSlice(&s, i, ins)
+					if want := spl(orig, i, 0, ins); !eq(s, want) {
+						fail("InsertSlice", "InsertSlice(%v, %d, %v) = %v, want %v", orig, i, ins, s, want)
+					}
+					if i < n {
+						s = build(n, sp, off)
+						e.Call()
+						slices.Remove(&s, i)
+						if want := spl(orig, i, 1, nil); !eq(s, want) {
+							fail("Remove", "Remove(%v, %d) = %v, want %v", orig, i, s, want)
+						}
+					}
+					for l := 0; i+l <= n; l++ {
+						s = build(n, sp, off)
+						e.Call()
+						slices.RemoveSlice(&s, i, l)
+						if want := spl(orig, i, l, nil); !eq(s, want) {
+							fail("RemoveSlice", "RemoveSlice(%v, %d, %d) = %v, want %v", orig, i, l, s, want)
+						}
+					}
+				}
+				s := build(n, sp, off)
+				e.Call()
+				slices.Reverse(s)
+				for i := range s {
+					if !same(s[i], orig[n-1-i]) {
+						fail("Reverse", "Reverse(%v) = %v", orig, s)
+						break
+					}
+				}
+				s = build(n, sp, off)
+				e.Call()
+				if c := slices.Clone(s); !eq(c, orig) {
+					fail("Clone", "Clone(%v) = %v", orig, c)
+				}
+				other := build(3, 1, off+1)
+				e.Call()
+				if c := slices.Concat(s, other); !eq(c, append(append([]T{}, orig...), other...)) {
+					fail("Concat", "Concat(%v, %v) = %v", orig, other, c)
+				}
+				for g := 0; g <= 3; g++ {
+					s = build(n, sp, off)
+					e.Call()
+					grown := slices.Grow(s, g)
+					want := append([]T{}, orig...)
+					for k := 0; k < g; k++ {
+						want = append(want, zero)
+					}
+					if !eq(grown, want) {
+						fail("Grow", "Grow(%v, %d) = %v, want %v", orig, g, grown, want)
+					}
+				}
+			}
+			for _, v := range vals {
+				rp := map[string]any{"element_type": tname, "len": n, "spare": sp, "value": fmt.Sprint(v)}
+				s := build(n, sp, 0)
+				e.Call()
+				slices.Fill(s, v)
+				for i := range s {
+					if !same(s[i], v) {
+						e.Fail("Fill|contents", rp, "[]%s: Fill(len %d, %v): element %d = %v", tname, n, v, i, s[i])
+						break
+					}
+				}
+				for _, cnt := range []int{n, 7 * n, 33 + n, 260 + n} {
+					e.Call()
+					rep := slices.Repeat(v, cnt)
+					if len(rep) != cnt {
+						e.Fail("Repeat|length", rp, "[]%s: Repeat(%v, %d) has length %d", tname, v, cnt, len(rep))
+					}
+					for i := range rep {
+						if !same(rep[i], v) {
+							e.Fail("Repeat|contents", rp, "[]%s: Repeat(%v, %d): element %d = %v, which is not the given value", tname, v, cnt, i, rep[i])
+							break
+						}
+					}
+				}
+			}
+		}
+	}
+}
+
+// liar reports IsZero() == true for some values that are not the zero value.
+type liar struct{ N int }
+
+func (l liar) IsZero() bool { return l.N%2 == 0 }
+
+type fstruct struct {
+	F float64
+	P *int
 }
 
 func main() {
@@ -229,6 +372,28 @@ func main() {
 			}
 		}
 	}
+	// element types
+	{
+		nz := math.Copysign(0, -1)
+		f64 := func(a, b float64) bool { return math.Float64bits(a) == math.Float64bits(b) }
+		typedSplice(e, "float64", []float64{nz, 0, math.NaN(), 1.5, math.Inf(-1)}, f64)
+		typedSplice(e, "float32", []float32{float32(nz), 0, float32(math.NaN()), 2.5}, func(a, b float32) bool { return math.Float32bits(a) == math.Float32bits(b) })
+		typedSplice(e, "complex128", []complex128{complex(nz, 0), complex(0, nz), 0, complex(1, nz)}, func(a, b complex128) bool { return f64(real(a), real(b)) && f64(imag(a), imag(b)) })
+		one, uno := 1, 1
+		typedSplice(e, "struct{float64,*int}", []fstruct{{nz, nil}, {0, nil}, {0, &one}, {0, &uno}, {1, &one}}, func(a, b fstruct) bool { return f64(a.F, b.F) && a.P == b.P })
+		typedSplice(e, "type with IsZero method", []liar{{0}, {2}, {3}, {4}}, func(a, b liar) bool { return a == b })
+		typedSplice(e, "*int", []*int{nil, &one, &uno, new(int)}, func(a, b *int) bool { return a == b })
+		typedSplice(e, "string", []string{"", "a", "\x00", "aa"}, func(a, b string) bool { return a == b })
+		typedSplice(e, "any", []any{nil, 0, "", (*int)(nil), liar{2}, nz, &one}, func(a, b any) bool {
+			if x, ok := a.(float64); ok {
+				y, ok2 := b.(float64)
+				return ok2 && f64(x, y)
+			}
+			return a == b
+		})
+		typedSplice(e, "time.Time", []time.Time{{}, time.Time{}.In(time.FixedZone("x", 3600)), time.Unix(0, 0), time.Unix(0, 0).UTC()}, func(a, b time.Time) bool { return a == b })
+		typedSplice(e, "[2]float64", [][2]float64{{nz, 0}, {0, nz}, {0, 0}, {1, 2}}, func(a, b [2]float64) bool { return f64(a[0], b[0]) && f64(a[1], b[1]) })
+	}
 	// Large-size families: the same splice model at lengths around every power of two up to
 	// 1025 (append growth, memmove and exponential-copy thresholds), a few positions each.
 	fam := 0
@@ -306,7 +471,7 @@ func main() {
 		}
 	}
 	r.Set("large_size_family_calls", fam)
-	e.Finish(fmt.Sprintf("every length 0..%d x spare capacity %v (hidden region pre-filled with garbage) x every valid index / inserted length 0..%d / removal length; Fill/Repeat every length; Concat every length pair incl. nil; position-tagged elements; plus large-size families at lengths around every power of two up to 1025; non-trivial = the call moves or writes at least one element next to others", maxLen, spares, maxIns))
+	e.Finish(fmt.Sprintf("every length 0..%d x spare capacity %v (hidden region pre-filled with garbage) x every valid index / inserted length 0..%d / removal length; Fill/Repeat every length; Concat every length pair incl. nil; position-tagged elements; the same model over 10 element types (floats and complex numbers with negative zero and NaN compared by bit pattern, structs holding them, a type whose IsZero method lies, pointers, strings, interfaces, time.Time) at lengths 0..5; plus large-size families at lengths around every power of two up to 1025; non-trivial = the call moves or writes at least one element next to others", maxLen, spares, maxIns))
 }
 
 func head(s []int) []int {
